@@ -5,7 +5,7 @@ Functions under contract (read from /repo/dagrt/data.py on every run):
 """
 import z3
 from pyvc.values import *  # noqa
-from pyvc.contracts import FunctionContract, FunctionUnit, LemmaUnit, summary_function
+from pyvc.contracts import FunctionContract, FunctionUnit, LemmaUnit, LeanUnit, summary_function
 from pyvc.engine import Obligation
 from .kinds import Kind, Outcome, KIND, KIND_CLASSES, Ident
 
@@ -92,8 +92,127 @@ class UnifyUnit(FunctionUnit):
         return axioms, obs, info
 
 
+from .dagspec import VarName, VARNAME
+
+Uf = z3.Function("U", Kind, Kind, Outcome)          # the outcome function of the real unify
+is_state_variable = z3.Function("is_state_variable", VarName, z3.BoolSort())
+TBL = TDict(VARNAME, KIND)
+
+
+class SetContract(FunctionContract):
+    """SymbolKindTable.set: whole-table postcondition.  `unify` enters through its outcome
+    function U (folded from the real source by UnifyUnit, which runs first)."""
+    prop = PROP
+    relpath = "dagrt/data.py"
+    qualname = "SymbolKindTable.set"
+    prune_quantified = False
+
+    def __init__(self, unify_unit):
+        self.uu = unify_unit
+        self.name = z3.Const("name", VarName)
+        self.kind = z3.Const("kind", Kind)
+        self.changed0 = z3.Bool("changed0")
+
+    def Uf(self, a, b):
+        return self.uu.U(a, b)
+
+    def params(self, ctx):
+        g = ctx.alloc(TBL.fresh("global_table"))
+        ph = ctx.alloc(TBL.fresh("phase_table"))
+        ctx.env["$phase_tbl"] = ph
+        ctx.env["self"] = ctx.alloc(VObj(TObj("SymbolKindTable", {}), {
+            "global_table": g, "_changed": VBool(self.changed0)}))
+        ctx.env["phase_name"] = VPy("<phase_name>")
+        ctx.env["name"] = VARNAME.wrap(self.name)
+        ctx.env["kind"] = KIND.wrap(self.kind)
+
+    def type_of_literal(self, node):
+        return TBL
+
+    def m_unify(self, ctx, it, args, kw):
+        a, b = ctx.deref(args[0]).t, ctx.deref(args[1]).t
+        if not ctx.branch(Outcome.is_Ok(self.Uf(a, b)), "unify-defined"):
+            ctx.raise_("ValueError")
+        return KIND.wrap(Outcome.ok_kind(self.Uf(a, b)))
+
+    calls = property(lambda self: {
+        "self.per_phase_table.setdefault": lambda ctx, it, a, k: ctx.env["$phase_tbl"],
+    })
+    names = property(lambda self: {
+        "unify": VFunc("unify", self.m_unify),
+        "is_state_variable": VFunc("is_state_variable", lambda ctx, it, a, k: VBool(is_state_variable(ctx.deref(a[0]).t))),
+        "print": VFunc("print", lambda ctx, it, a, k: NONE),
+        "repr": VFunc("repr", lambda ctx, it, a, k: VPy("<repr>")),
+    })
+
+    def ensures(self, st):
+        m = z3.Const("m", VarName)
+        sel = is_state_variable(self.name)
+        G0, G1 = st.old.field("self", "global_table"), st.field("self", "global_table")
+        P0, P1 = st.old._deref(st.old._env["$phase_tbl"]), st._deref(st._env["$phase_tbl"])
+        n, k = self.name, self.kind
+
+        def T(d0, d1, tag):
+            old = z3.Select(d0.val, n)
+            u = self.Uf(k, old)
+            new = z3.Select(d1.val, n)
+            return [
+                ("%s/other-entries-untouched" % tag,
+                 z3.ForAll([m], z3.Implies(m != n, z3.And(z3.Select(d1.dom, m) == z3.Select(d0.dom, m),
+                                                          z3.Implies(z3.Select(d0.dom, m),
+                                                                     z3.Select(d1.val, m) == z3.Select(d0.val, m)))))),
+                ("%s/entry-present-afterwards" % tag, z3.Select(d1.dom, n)),
+                ("%s/new-name-gets-the-kind" % tag, z3.Implies(z3.Not(z3.Select(d0.dom, n)), new == k)),
+                ("%s/known-name-gets-the-join-when-defined" % tag,
+                 z3.Implies(z3.And(z3.Select(d0.dom, n), Outcome.is_Ok(u)), new == Outcome.ok_kind(u))),
+                ("%s/known-name-keeps-its-kind-when-the-join-is-undefined" % tag,
+                 z3.Implies(z3.And(z3.Select(d0.dom, n), z3.Not(Outcome.is_Ok(u))), new == old)),
+                ("%s/change-flag-set-iff-the-table-changed" % tag,
+                 st.field("self", "_changed").t ==
+                 z3.Or(self.changed0, z3.Not(z3.Select(d0.dom, n)), new != old)),
+            ]
+
+        def same(d0, d1):
+            return z3.And(d0.dom == d1.dom, d0.val == d1.val)
+        out = []
+        for name_, f in T(G0, G1, "global"):
+            out.append((name_, z3.Implies(sel, f)))
+        for name_, f in T(P0, P1, "phase"):
+            out.append((name_, z3.Implies(z3.Not(sel), f)))
+        out.append(("frame/persistent-names-go-to-the-global-table-only", z3.Implies(sel, same(P0, P1))))
+        out.append(("frame/other-names-go-to-the-phase-table-only", z3.Implies(z3.Not(sel), same(G0, G1))))
+        return out
+
+
+class SetUnit(FunctionUnit):
+    def generate(self):
+        axioms, obs, info = super().generate()
+        U = self.contract.uu.U
+        a, k1, k2 = z3.Consts("old k1 k2", Kind)
+        ok, okk = Outcome.is_Ok, Outcome.ok_kind
+        # two `set`s on one (known) name commute whenever every join involved is defined ...
+        defined = [ok(U(k1, a)), ok(U(k2, okk(U(k1, a)))), ok(U(k2, a)), ok(U(k1, okk(U(k2, a))))]
+        obs.append(Obligation("%s/lemma/set-commutes-when-joins-are-defined" % self.label, defined,
+                              U(k2, okk(U(k1, a))) == U(k1, okk(U(k2, a)))))
+        # ... and if one order is defined so is the other
+        obs.append(Obligation("%s/lemma/set-definedness-is-order-independent" % self.label,
+                              [ok(U(k1, a)), ok(U(k2, okk(U(k1, a))))],
+                              z3.And(ok(U(k2, a)), ok(U(k1, okk(U(k2, a)))))))
+        # known finding D5: without the definedness hypothesis the two orders differ (first kind wins)
+        F = lambda t, k: z3.If(ok(U(k, t)), okk(U(k, t)), t)   # noqa  what `set` leaves in a known entry
+        obs.append(Obligation("%s/probe[D5]/set-commutes-even-when-a-join-is-undefined" % self.label, [],
+                              F(F(a, k1), k2) == F(F(a, k2), k1)))
+        # join is inflationary and monotone (hypotheses hinfl / hmono of L-CHAOTIC for `set`)
+        le = lambda x, y: z3.Or(x == y, U(x, y) == Outcome.Ok(y))   # noqa   x below y
+        obs.append(Obligation("%s/lemma/join-is-an-upper-bound" % self.label, [ok(U(k1, a))],
+                              z3.And(le(a, okk(U(k1, a))), le(k1, okk(U(k1, a))))))
+        return axioms, obs, info
+
+
 def units():
-    return [UnifyUnit(UnifyContract())]
+    uu = UnifyUnit(UnifyContract())
+    return [uu, SetUnit(SetContract(uu)),
+            LeanUnit("lemma:L-CHAOTIC", "lemmas/LChaotic.lean", ["chaotic_unique"])]
 
 
 LEVEL = "proof"
